@@ -206,15 +206,25 @@ End BS.
 (* ------------------------------------------------------------------ exponential model: martingale forward, linear shifts cancel *)
 Lemma exp_mean_martingale kappa r d t : exp_mean (exp_mgf kappa r d) t = exp ((r - d) * t).
 Proof.
-  unfold exp_mean, exp_std_moment, exp_mgf, exp_mgf_formula, exp_drift, exp_omega, levy_mgf.
+  unfold exp_mean, exp_std_moment, exp_mgf, exp_mgf_formula, exp_drift, exp_omega, exp_exponent_at_minus_i, levy_mgf.
   rewrite <- exp_plus. f_equal. ring.
 Qed.
+(* the constructor's guard: it raises ValueError exactly when kappa(1) is not finite; otherwise omega = -kappa(1) *)
+Lemma exp_omega_checked_spec finite1 kappa :
+  exp_omega_checked finite1 kappa = if finite1 then Some (- kappa 1) else None.
+Proof.
+  unfold exp_omega_checked, exp_omega_raises, exp_omega, exp_exponent_at_minus_i. cbv zeta.
+  assert (E : Rltb (IZR 1 / IZR 1000000000000 * Rmax (IZR 1 / IZR 1) (Rabs (kappa 1))) (Rabs 0) = false).
+  { apply Rltb_false. rewrite Rabs_R0. apply Rmult_le_pos; [lra|]. eapply Rle_trans; [|apply Rmax_l]. lra. }
+  rewrite E. destruct finite1; reflexivity.
+Qed.
+
 (* a linear term c*u in the exponent is absorbed by omega = -kappa(1): the law of S_t does not see it *)
 Lemma exp_mgf_shift kappa1 kappa2 c r d ls t u :
   kappa2 u = kappa1 u - c * u -> kappa2 1 = kappa1 1 - c * 1 ->
   exp_mgf kappa2 r d ls t u = exp_mgf kappa1 r d ls t u.
 Proof.
-  intros Hu H1. unfold exp_mgf, exp_mgf_formula, exp_drift, exp_omega, levy_mgf.
+  intros Hu H1. unfold exp_mgf, exp_mgf_formula, exp_drift, exp_omega, exp_exponent_at_minus_i, levy_mgf.
   rewrite Hu, H1. rewrite <- !exp_plus. f_equal. ring.
 Qed.
 
@@ -335,6 +345,16 @@ Proof.
   intros sigma nu theta CG GY MY Hs Hn. split.
   - intros x H1 H2. apply vg_cgmy_exponent; assumption.
   - intros. apply vg_cgmy_same_law; assumption.
+Qed.
+
+Lemma omega_guard_all : forall finite1 kappa,
+  exp_omega_checked finite1 kappa = (if finite1 then Some (- kappa 1) else None)
+  /\ (forall w r d t, exp_omega_checked finite1 kappa = Some w ->
+        finite1 = true /\ w = exp_omega (exp_exponent_at_minus_i kappa) /\ exp_mean (exp_mgf kappa r d) t = exp ((r - d) * t)).
+Proof.
+  intros finite1 kappa. split; [apply exp_omega_checked_spec|].
+  intros w r d t H. rewrite exp_omega_checked_spec in H. destruct finite1; [|discriminate]. inversion H; subst.
+  repeat split. apply exp_mean_martingale.
 Qed.
 
 Lemma coefficients_all : forall uninit k a b, b <> a ->
